@@ -20,7 +20,7 @@ def main():
     targets = TARGETS.get(pid, [])
     if not targets:
         return 0
-    env = dict(os.environ, CARGO_NET_OFFLINE="true", VERIF_DIR=VERIF)
+    env = dict(os.environ, CARGO_NET_OFFLINE="true", VERIF_DIR=VERIF, ASAN_OPTIONS="detect_leaks=0:allocator_may_return_null=1")
     r = subprocess.run(["sh", os.path.join(HERE, "build.sh")], env=env, stdout=subprocess.PIPE, stderr=subprocess.STDOUT, text=True)
     if r.returncode != 0:
         print("INCONCLUSIVE fuzz build failed\n" + r.stdout[-1500:])
@@ -36,7 +36,7 @@ def main():
         jobs = 8
         cmd = [binp, corpus, "-artifact_prefix=" + art + "/", "-seed=" + str(int(seed) or 1), "-runs=" + str(RUNS // jobs),
                "-max_total_time=" + str(MAXT), "-len_control=0", "-max_len=512", "-timeout=20", "-rss_limit_mb=4096",
-               "-fork=%d" % jobs, "-ignore_crashes=0", "-print_final_stats=1"]
+               "-fork=%d" % jobs, "-ignore_crashes=0", "-print_final_stats=1", "-detect_leaks=0"]
         t0 = time.time()
         r = subprocess.run(cmd, env=env, cwd=work, stdout=subprocess.PIPE, stderr=subprocess.STDOUT, text=True)
         arts = sorted(glob.glob(os.path.join(art, "*")))
